@@ -67,7 +67,9 @@ pub fn fen_board_event(b: &Board) -> Value {
         Err(()) => json!({"ok": false, "panic": true}),
     };
     json!({"ev": "fen", "kind": "board", "pos": raw_json(b.raw()), "text": text_json(&t),
-           "text_display": text_json(&b.to_string()), "reparsed": back, "reparsed_raw": parsed_raw(&t)})
+           "text_display": text_json(&b.to_string()), "reparsed": back, "reparsed_raw": parsed_raw(&t),
+           "pretty_ascii": text_json(&b.pretty(owlchess::board::PrettyStyle::Ascii).to_string()),
+           "pretty_utf8": text_json(&b.raw().pretty(owlchess::board::PrettyStyle::Utf8).to_string())})
 }
 
 pub fn fen_raw_event(r: &RawBoard) -> Value {
